@@ -853,11 +853,17 @@ def _pick_value(rng, view):
                            (0x7fc00001 if nb == 32 else 0x7ff8000000000001),
                            (0x3f800000 if nb == 32 else 0x3ff0000000000000), 1])
     k = rng.random()
+    if EXTREME_P[0] and rng.random() < EXTREME_P[0]:
+        # every field at (or one step inside) an end of its range: INT_MAX + 1, INT_MIN - 1, 0 - 1 in derived expressions
+        return rng.choice([lo, hi, hi, max(lo, hi - 1), min(hi, lo + 1)])
     if k < 0.55:
         return max(lo, min(hi, rng.choice([0, 1, 2, 3, 4, 5, 8, 10])))
     if k < 0.65:
         return rng.choice([lo, hi])
     return rng.randint(lo, hi)
+
+
+EXTREME_P = [0.0]
 
 
 def fill(view, rng, depth=0):
